@@ -13,6 +13,7 @@ that per-instance evaluation (DESIGN.md §3.4).
 -/
 import Daac.Proofs.Glue
 import Daac.Proofs.SpecProps
+import Daac.Proofs.Rung2
 namespace Daac.Props.C01
 open Daac
 variable {V : Type} [DecidableEq V]
@@ -58,5 +59,32 @@ first. -/
 theorem spec_order (Ps : List (Pat V)) (hV : ValidPats Ps) (h : List Nat) :
     (specOverlapping Ps h).Pairwise (fun a b => a.stop < b.stop ∨ (a.stop = b.stop ∧ a.start < b.start)) :=
   specOverlapping_sorted hV h
+
+
+/-! ### Rung 2 — every pattern collection, every `num_free_blocks`, in the model of the builder
+
+`buildDA` is the model of `build_with_values` (Model/Trie.lean, Model/Nfa.lean, Model/Build.lean),
+tied to the implementation by suite K-build (byte-identical tables). The chain of proofs:
+insertion phase (Proofs/TrieFacts, NfaQueue) → fail links and outputs (Proofs/NfaStd, NfaLm, NfaG)
+→ layout with the ring-buffer helper, BASE uniqueness and CHECK sanitising (Proofs/HelperFacts,
+LayoutB, LayoutC, MapperFacts) → table semantics (Proofs/LayoutSem) → iterators (Rung 1). -/
+
+/-- **Full strength in the model, byte-wise**: for EVERY valid collection of byte patterns and
+every `num_free_blocks`, if the model builder succeeds then the overlapping search of every
+haystack returns exactly `specOverlapping`. No invariant hypothesis is left. -/
+theorem overlapping_correct_build_bytewise (nfb : Nat) (Ps : List (Pat V)) (hV : ValidPats Ps)
+    (hbytes : ∀ p ∈ Ps, ∀ b ∈ p.key, b < 256) (da : DA V)
+    (hb : buildDA .bytewise ⟨0, nfb⟩ (Ps.map lp) = .ok da) (h : List Nat) (hh : ∀ b ∈ h, b < 256) :
+    ∃ l fin, ovAll da h = .ok (l, fin) ∧ l.map (·.1) = specOverlapping Ps h :=
+  bytewise_overlapping_correct nfb Ps hV hbytes da hb h hh
+
+/-- **Full strength in the model, char-wise**: for every valid collection of UTF-8 patterns
+(as scalar-value lists) and every valid UTF-8 haystack, with byte offsets. -/
+theorem overlapping_correct_build_charwise (nfb : Nat) (Q : List (List Nat × V)) (hQ : ScalarPats Q)
+    (hQ0 : Q ≠ []) (hnd : (Q.map (·.1)).Nodup) (da : DA V)
+    (hb : buildDA .charwise ⟨0, nfb⟩ (Q.map charPat) = .ok da) (t : List Nat) (ht : Scalars t) :
+    ∃ l fin, ovAll da (encAll t) = .ok (l, fin) ∧
+      l.map (·.1) = specOverlapping (Q.map bytePat) (encAll t) :=
+  charwise_overlapping_correct nfb Q hQ hQ0 hnd da hb t ht
 
 end Daac.Props.C01
